@@ -239,7 +239,7 @@ theorem addPayload_gen (z : Zlib) (cfg : PyIR.Cfg) (h : Header) (payload : Bytes
     · have hA0 : ((h.annSize : Int) != 0) = false := by simp [hA]
       have hI' : (((payload.length : Int) != (h.dataSize : Int))) = false := by
         simp only [bne_eq_false_iff_eq]; omega
-      have := hZ F none (("self.data", .bytes payload) :: initEnv h payload) ⟨[], [], []⟩ payload [] h.flags
+      have := hZ F none (("self.data", .bytes payload) :: initEnv h payload) ⟨[], [], [], []⟩ payload [] h.flags
         (by simp [List.lookup_cons]) (by simp [initEnv, List.lookup_cons]) (by simp [initEnv, List.lookup_cons])
       simp [withParts, Gen.C06.addPayloadSrc, exec, truth, eval, truthy, initEnv, List.lookup_cons, hI, hI', hA0, hA] at this ⊢
       rw [this]
@@ -250,7 +250,7 @@ theorem addPayload_gen (z : Zlib) (cfg : PyIR.Cfg) (h : Header) (payload : Bytes
           payload h 0 [] :=
         ⟨by simp [List.lookup_cons], by simp [List.lookup_cons], by simp [List.lookup_cons], by simp [initEnv, List.lookup_cons],
          by simp [initEnv, List.lookup_cons], by simp [initEnv, List.lookup_cons], by simp [initEnv, List.lookup_cons]⟩
-      have hloop := hL h.annSize F none _ 0 [] ⟨[], [], []⟩ (by omega) (by omega) ok0
+      have hloop := hL h.annSize F none _ 0 [] ⟨[], [], [], []⟩ (by omega) (by omega) ok0
       have hspec := walkAnns_spec payload h.annSize h.annSize 0 [] (by omega) (by omega)
       simp only [List.drop_zero, Nat.sub_zero] at hspec
       rcases hw : walkSpec payload h.annSize h.annSize 0 [] with _ | ⟨i', acc'⟩
@@ -266,7 +266,7 @@ theorem addPayload_gen (z : Zlib) (cfg : PyIR.Cfg) (h : Header) (payload : Bytes
         · subst hi'
           have heq : (((h.annSize : Int) == (h.annSize : Int))) = true := by simp
           have h0A : (0 : Int) ≤ (h.annSize : Int) := by omega
-          have := hZ F none (("self.data", .bytes (payload.drop h.annSize)) :: env') ⟨[], [], []⟩ (payload.drop h.annSize) acc' h.flags
+          have := hZ F none (("self.data", .bytes (payload.drop h.annSize)) :: env') ⟨[], [], [], []⟩ (payload.drop h.annSize) acc' h.flags
             (by simp [List.lookup_cons]) (by simp [List.lookup_cons, ok'.hanns]) (by simp [List.lookup_cons, ok'.hF])
           simp at hspec
           simp [withParts, Gen.C06.addPayloadSrc, exec, truth, eval, truthy, initEnv, List.lookup_cons, hI, hA0, he,
